@@ -1017,7 +1017,7 @@ func ruleBothEndsClosed(w *World, r *Report, rule string) {
 	// call sites
 	nsites := 0
 	prog := w.SSA()
-	for fnc := range allModuleFuncs(w, prog) {
+	for _, fnc := range sortedModuleFuncs(w, prog) {
 		for _, c := range callsIn(fnc) {
 			if sCallee(c) != pi.Obj {
 				continue
@@ -1078,7 +1078,7 @@ func callersClose(w *World, prog *ssa.Program, fn *ssa.Function, pidx int) bool 
 	}
 	n := 0
 	good := true
-	for caller := range allModuleFuncs(w, prog) {
+	for _, caller := range sortedModuleFuncs(w, prog) {
 		for _, c := range callsIn(caller) {
 			if sCallee(c) != obj || c.Common().IsInvoke() {
 				continue
@@ -1415,7 +1415,7 @@ func poolOrigin(v ssa.Value) bool {
 func rulePoolMemoryStaysLocal(w *World, r *Report, rule string, inScope func(pkgPath string) bool) {
 	npool := 0
 	var bad []string
-	for fn := range allModuleFuncs(w, w.SSA()) {
+	for _, fn := range sortedModuleFuncs(w, w.SSA()) {
 		f0 := fn
 		for f0.Parent() != nil {
 			f0 = f0.Parent()
